@@ -74,6 +74,12 @@ def check_schedule(spec, res):
         elif w:
             v = w
     if v is None and schedule:
+        w = sc.check_partitioning(schedule)
+        if w == "skipped":
+            res.count("partitioning_oracle_skipped")
+        elif w:
+            v = w
+    if v is None and schedule:
         w = sc.check_start_benchmark(schedule)
         if w == "skipped":
             res.count("start_benchmark_oracle_skipped")
